@@ -29,3 +29,13 @@ mod timeout_coord;
 
 /// Ends of two independent channels (for example the input and output channels of an agent).
 type Io = (ByteWriter, ByteReader);
+
+/// Re-exports of internal components for external runtime-verification harnesses. Off by default.
+#[cfg(feature = "verif_hooks")]
+pub mod verif_hooks {
+    pub use crate::agent::verif_hooks::*;
+    pub use crate::backpressure::verif_hooks::*;
+    pub use crate::timeout_coord::{
+        agent_timeout_coordinator, downlink_timeout_coordinator, Receiver, VoteResult, Voter,
+    };
+}
